@@ -12,7 +12,7 @@ import (
 
 func init() {
 	register("C13", propMeta{
-		Explanation:  "Decides the soundness of the in-place metadata patch used by StoreRepository.Update: (R1) for every call patchJSONNumericField(data, K, v) the locator of key K must be structural (a JSON tokenizer) or, if it is a first-occurrence byte search, no free-text field (string, map, any, nested struct with strings) may be marshalled before K in sop.StoreInfo, otherwise store names/descriptions containing the quoted key redirect the patch onto another field; (R2) only the fields tagged by the constants fieldCount/fieldTimestamp are patched, the constants equal the JSON tags of StoreInfo.Count/Timestamp, those fields are integers, each patched value comes from the same-named field, and the fast path is taken only when NeedsMetaDataSave is false (otherwise the full struct is re-marshalled); (R3) the count written is the freshly read count plus the caller's delta, under the store lock.",
+		Explanation:  "Decides the soundness of the in-place metadata patch used by StoreRepository.Update: (R1) for every call patchJSONNumericField(data, K, v) the locator of key K must be structural (a JSON tokenizer) or, if it is a first-occurrence byte search, no free-text field (string, map, any, nested struct with strings) may be marshalled before K in sop.StoreInfo, otherwise store names/descriptions containing the quoted key redirect the patch onto another field; (R2) only the fields tagged by the constants fieldCount/fieldTimestamp are patched, the constants equal the JSON tags of StoreInfo.Count/Timestamp, those fields are integers, each patched value comes from the same-named field, and the fast path is taken only when NeedsMetaDataSave is false (otherwise the full struct is re-marshalled); (R3) the count written is the freshly read count plus the caller's delta, under the store lock. (R4) the patcher's result is the concatenation data[:start] + rendering of the new value + data[end:] with end = the tokenizer's offset after the value and start = end - len(raw value); a buffer may be overwritten in place only where len(new) == len(old) was tested.",
 		DoesNotCover: "That encoding/json round-trips every option value of StoreInfo; concurrent writers outside the L2 lock.",
 	}, runC13)
 }
@@ -182,6 +182,167 @@ func runC13(c *Ctx) {
 
 	r3 := c.Rule("R3", "Update applies the delta to the freshly read count under the store lock (released by defer)", 3)
 	countMergeRule(c, r3)
+
+	r4 := c.Rule("R4", "splice shape of the patcher: the patched document is the concatenation of data[:start], the rendering of the new value and data[end:], with end = the tokenizer's offset after the value and start = end - len(raw value); a buffer is overwritten in place only where the new rendering is proven to have the old width", 4)
+	spliceShapeRule(c, r4, fp)
+}
+
+// spliceShapeRule (C13.R4): fs.patchJSONNumericField builds its result by concatenation only.
+func spliceShapeRule(c *Ctx, r4 string, fp *Func) {
+	w := c.W
+	g := w.G(fp)
+	info := fp.Pkg.TypesInfo
+	defs := localDefs(fp)
+	sig := fp.Obj.Type().(*types.Signature)
+	data, value := sig.Params().At(0), sig.Params().At(2)
+	isBuiltin := func(call *ast.CallExpr, name string) bool {
+		id, ok := ast.Unparen(call.Fun).(*ast.Ident)
+		if !ok {
+			return false
+		}
+		b, ok := info.Uses[id].(*types.Builtin)
+		return ok && b.Name() == name
+	}
+	// the raw value variable: the target of dec.Decode(&raw)
+	var raw types.Object
+	for _, cs := range w.Sites(fp) {
+		if cs.Key == "encoding/json.Decoder.Decode" && len(cs.Call.Args) == 1 {
+			if u, ok := ast.Unparen(cs.Call.Args[0]).(*ast.UnaryExpr); ok && u.Op == token.AND {
+				if id, ok := ast.Unparen(u.X).(*ast.Ident); ok {
+					raw = info.Uses[id]
+				}
+			}
+		}
+	}
+	isLenOf := func(e ast.Expr, o types.Object) bool {
+		call, ok := ast.Unparen(e).(*ast.CallExpr)
+		return ok && o != nil && isBuiltin(call, "len") && len(call.Args) == 1 && mentionsObj(info, call.Args[0], o)
+	}
+	// concatenation operands
+	var prefix, suffix *ast.SliceExpr
+	var prefixAt, numberAt, suffixAt *GNode
+	for _, n := range g.Nodes {
+		if n.Ast == nil {
+			continue
+		}
+		ast.Inspect(n.Ast, func(x ast.Node) bool {
+			if _, ok := x.(*ast.FuncLit); ok {
+				return false
+			}
+			call, ok := x.(*ast.CallExpr)
+			if !ok {
+				return true
+			}
+			concat := isBuiltin(call, "append")
+			if cs := w.resolveCall(fp, call); cs != nil && (cs.Key == "slices.Concat" || cs.Key == "bytes.Join" || cs.Key == "bytes.Buffer.Write") {
+				concat = true
+			}
+			if !concat {
+				return true
+			}
+			for i, a := range call.Args {
+				if i == 0 && isBuiltin(call, "append") {
+					continue
+				}
+				if se, ok := ast.Unparen(a).(*ast.SliceExpr); ok && mentionsObj(info, se.X, data) {
+					if se.Low == nil && se.High != nil && prefix == nil {
+						prefix, prefixAt = se, n
+					}
+					if se.Low != nil && se.High == nil && suffix == nil {
+						suffix, suffixAt = se, n
+					}
+					continue
+				}
+				if w.mentionsDeep(fp, defs, a, value) && numberAt == nil {
+					numberAt = n
+				}
+			}
+			return true
+		})
+	}
+	okOver := map[*GNode]bool{}
+	// in-place overwrites
+	nOver := 0
+	for _, n := range g.Nodes {
+		if n.Ast == nil {
+			continue
+		}
+		var over []ast.Node
+		var srcs []ast.Expr
+		ast.Inspect(n.Ast, func(x ast.Node) bool {
+			switch y := x.(type) {
+			case *ast.FuncLit:
+				return false
+			case *ast.CallExpr:
+				if isBuiltin(y, "copy") && len(y.Args) == 2 {
+					over = append(over, y)
+					srcs = append(srcs, y.Args[1])
+				}
+			case *ast.AssignStmt:
+				for _, l := range y.Lhs {
+					if ix, ok := ast.Unparen(l).(*ast.IndexExpr); ok {
+						if _, isSlice := info.TypeOf(ix.X).Underlying().(*types.Slice); isSlice {
+							over = append(over, y)
+							srcs = append(srcs, nil)
+						}
+					}
+				}
+			}
+			return true
+		})
+		for i, o := range over {
+			nOver++
+			// accepted only behind an equal-width test: `len(src) == len(raw)` (either order) taken on its true edge
+			guards := g.condNodes(func(e ast.Expr) bool {
+				be, ok := ast.Unparen(e).(*ast.BinaryExpr)
+				if !ok || be.Op != token.EQL || srcs[i] == nil {
+					return false
+				}
+				srcLen := func(x ast.Expr) bool {
+					call, ok := ast.Unparen(x).(*ast.CallExpr)
+					return ok && isBuiltin(call, "len") && len(call.Args) == 1 && types.ExprString(call.Args[0]) == types.ExprString(srcs[i])
+				}
+				return (srcLen(be.X) && isLenOf(be.Y, raw)) || (srcLen(be.Y) && isLenOf(be.X, raw))
+			})
+			guarded := len(guards) > 0 && len(g.ReachableWithout(edgeCut(guards, 1), func(x *GNode) bool { return x == n })) == 0
+			if guarded {
+				okOver[n] = true
+			}
+			c.Check(guarded, r4, fmt.Sprintf("patchJSONNumericField: in-place overwrite #%d is width-preserving", nOver), o.Pos(), "only reachable where len(new) == len(old) was tested",
+				"part of a buffer is overwritten in place without a proof that the new rendering is exactly as wide as the old value: a narrower number leaves trailing digits of the old one (12 -> 7 becomes 72), a wider one is truncated", nil)
+		}
+	}
+	have := prefix != nil && suffix != nil && numberAt != nil
+	c.Check(have, r4, "patchJSONNumericField: the result is concatenated from prefix, new value and suffix", fp.Decl.Pos(), "data[:start], the rendering of value and data[end:] are appended",
+		"the three pieces of the spliced document (data[:start], the rendering of the new value, data[end:]) are not all appended to the result", nil)
+	if have {
+		// order on every path: prefix before number before suffix, all before the success return
+		okRet := func(n *GNode) bool { return n.Ret != nil && g.ClassifyReturn(n) != RetNonNil }
+		offs := g.MustPrecede(func(n *GNode) bool { return n == prefixAt }, func(n *GNode) bool { return n == numberAt && n != prefixAt })
+		offs = append(offs, g.MustPrecede(func(n *GNode) bool { return n == numberAt }, func(n *GNode) bool { return n == suffixAt && n != numberAt })...)
+		offs = append(offs, g.MustPrecede(func(n *GNode) bool { return n == suffixAt || okOver[n] }, okRet)...)
+		c.Offences(g, offs, r4, "patchJSONNumericField: pieces are appended in document order on every success path", fp.Decl.Pos(), "prefix, value, suffix, then the successful return", "a successful return is reachable without the three pieces in order")
+		// bounds: end := dec.InputOffset(), start := end - len(raw)
+		endObj, _ := info.Uses[identOf(suffix.Low)].(types.Object)
+		startObj, _ := info.Uses[identOf(prefix.High)].(types.Object)
+		endOK := endObj != nil && w.mentionsDeep(fp, defs, suffix.Low, nil, "encoding/json.Decoder.InputOffset")
+		for _, d := range defs[endObj] {
+			if be, ok := ast.Unparen(d).(*ast.BinaryExpr); ok && (be.Op == token.ADD || be.Op == token.SUB) {
+				endOK = false // an adjusted offset
+			}
+		}
+		startOK := false
+		if startObj != nil && len(defs[startObj]) == 1 {
+			if be, ok := ast.Unparen(defs[startObj][0]).(*ast.BinaryExpr); ok && be.Op == token.SUB && endObj != nil && mentionsObj(info, be.X, endObj) && isLenOf(be.Y, raw) {
+				if _, plain := ast.Unparen(be.X).(*ast.Ident); plain {
+					startOK = true
+				}
+			}
+		}
+		c.Check(endOK && startOK, r4, "patchJSONNumericField: splice bounds are the tokenizer's value span", prefix.Pos(), "end = InputOffset() after decoding the value, start = end - len(raw)",
+			fmt.Sprintf("the splice bounds are not exactly the span of the old value (end from InputOffset unadjusted: %v, start = end - len(raw): %v): bytes of the old value survive or neighbouring bytes are dropped", endOK, startOK), nil)
+	}
+	c.Check(true, r4, "patchJSONNumericField: in-place overwrites inventoried", fp.Decl.Pos(), fmt.Sprintf("%d in-place overwrite(s)", nOver), "", nil)
 }
 
 // countMergeRule (C13.R3, shared by C06.R2): fs.StoreRepository.Update merges the caller's delta into the
